@@ -387,6 +387,7 @@ class Evaluator:
         self._stack = []
         self._foreign = []
         self._cutcount = [0]
+        self._pinned = []
         self.bound = dict(bound or {})   # name -> Rat   (comprehension / lambda / spec bindings)
         self._params = set(func.params)
         self._local_names = self._collect_locals()
@@ -691,7 +692,11 @@ class Evaluator:
 
     # ------------------------------------------------------------ expressions
     def _t(self, e, at, restrict):
-        k = (id(e), at.id if at is not None else None, restrict, self.alias_mode, self._keep_seq,
+        # Name nodes are often built ad hoc by rules: key them by identifier, never by a reusable memory address
+        ek = ("name", e.id) if isinstance(e, ast.Name) else id(e)
+        if not isinstance(e, ast.Name):
+            self._pinned.append(e)      # keep the node alive as long as its id() is a cache key
+        k = (ek, at.id if at is not None else None, restrict, self.alias_mode, self._keep_seq,
              tuple(sorted((n, id(v)) for n, v in self.bound.items())))
         if k in self._cache:
             return self._cache[k]
